@@ -60,6 +60,63 @@ fn emit_cycle_run(bc: &mut Out, case: usize, call: usize, log: &[Value]) {
     bc.ev(json!({"ev": "bc_end", "case": case, "call": call}));
 }
 
+/// Names of generated types a Rust type holds by value: descent stops at Box, Vec and the map /
+/// set types; Option, tuples and arrays are looked through.
+fn by_value_names(t: &syn::Type, out: &mut Vec<String>) {
+    match t {
+        syn::Type::Path(p) => {
+            let segs: Vec<String> = p.path.segments.iter().map(|s| s.ident.to_string()).collect();
+            let last = segs.last().cloned().unwrap_or_default();
+            let heap = ["Box", "Vec", "HashMap", "BTreeMap", "HashSet", "BTreeSet", "Map", "MyMap", "IndexMap"];
+            if heap.contains(&last.as_str()) {
+                return;
+            }
+            let args = match &p.path.segments.last().unwrap().arguments {
+                syn::PathArguments::AngleBracketed(a) => a.args.iter().collect::<Vec<_>>(),
+                _ => vec![],
+            };
+            if last == "Option" {
+                for a in args {
+                    if let syn::GenericArgument::Type(t) = a {
+                        by_value_names(t, out);
+                    }
+                }
+            } else if p.path.leading_colon.is_none() && segs.len() == 1 {
+                out.push(last);
+            }
+        }
+        syn::Type::Tuple(t) => t.elems.iter().for_each(|e| by_value_names(e, out)),
+        syn::Type::Array(a) => by_value_names(&a.elem, out),
+        syn::Type::Paren(p) => by_value_names(&p.elem, out),
+        _ => {}
+    }
+}
+
+/// The by-value containment graph of the rendered output: [{name, holds: [names]}] for every
+/// top-level struct and enum (third observation of C07, at the level of the emitted code).
+fn rendered_graph(ts: &TypeSpace) -> Vec<Value> {
+    let file = match syn::parse2::<syn::File>(ts.to_stream()) {
+        Ok(f) => f,
+        Err(_) => return vec![json!({"name": "<unparsable>", "holds": []})],
+    };
+    let mut out = vec![];
+    for it in &file.items {
+        let (name, fields): (String, Vec<&syn::Field>) = match it {
+            syn::Item::Struct(s) => (s.ident.to_string(), s.fields.iter().collect()),
+            syn::Item::Enum(e) => (e.ident.to_string(), e.variants.iter().flat_map(|v| v.fields.iter()).collect()),
+            _ => continue,
+        };
+        let mut holds = vec![];
+        for f in fields {
+            by_value_names(&f.ty, &mut holds);
+        }
+        holds.sort();
+        holds.dedup();
+        out.push(json!({"name": name, "holds": holds}));
+    }
+    out
+}
+
 pub fn run(cases: &str, events: &str) {
     let cases = read_cases(cases);
     let mut out = Out::new(events);
@@ -95,7 +152,12 @@ pub fn run(cases: &str, events: &str) {
         } else {
             (vec![], vec![])
         };
+        let rendered = if res == "ok" {
+            crate::guarded(|| rendered_graph(&ts)).unwrap_or_else(|_| vec![json!({"name": "<panic>", "holds": []})])
+        } else {
+            vec![]
+        };
         out.ev(json!({"ev": "graph", "case": i + 1, "n": case["n"], "kinds": case["kinds"],
-                      "edges": case["edges"], "res": res, "snap": snap, "pub": publ}));
+                      "edges": case["edges"], "res": res, "snap": snap, "pub": publ, "rendered": rendered}));
     }
 }
